@@ -17,21 +17,35 @@ import VaxisModel.Model.ImageFit
 namespace VaxisModel.Model.ImageTerm
 open VaxisModel.Gen.ImageConsts VaxisModel.Model.ImageFit
 
-/-- `cellPixelSize` for one direction: `pix / cells` (Go's truncating division) when there are cells and
-    the quotient is positive, else 1. -/
+/-- `cellPixelSize` for one direction in closed form: `pix / cells` (Go's truncating division) when there are cells
+    and the quotient is positive, else 1 (= `termCellW` = `termCellH` for the current source:
+    `Lemmas.ImageTerm.termCellW_eq`). -/
 def termCell (pix cells : Int) : Nat :=
   if 0 < cells ∧ 0 < Int.tdiv pix cells then (Int.tdiv pix cells).toNat else 1
-
-/-- Cell size of a kitty / sixel image after `Resize(w, h)` on a terminal reporting `xpix × ypix` pixels for
-    `cols × rows` cells. -/
-def protoCellSizeTerm (F : FloatOps) (wPix hPix w h : Nat) (xpix cols ypix rows : Int) : Except Panic (Nat × Nat) :=
-  protoCellSize F wPix hPix w h (termCell xpix cols) (termCell ypix rows)
-
-/-! ### Signed boxes -/
 
 def evalCmpI (c : Cmp) (x y : Int) : Bool :=
   match c with
   | .lt => x < y | .le => x ≤ y | .eq => x = y | .ne => x ≠ y | .ge => x ≥ y | .gt => x > y
+
+/-- One axis of `cellPixelSize` as *interpreted* from the regenerated `Gen.cellPixelSizeW/H` (round 3): the initial
+    value, replaced by the truncating quotient when both conjuncts of the `if` hold.  A shape the extractor does not
+    know (`none`) gives 0 — `Resize` would divide by it, and `no_panic_term` fails. -/
+def termCellWith (ax : Option CellAxis) (pix cells : Int) : Nat :=
+  match ax with
+  | none => 0
+  | some ax =>
+    if evalCmpI ax.cellsCmp cells ax.cellsLit && evalCmpI ax.quotCmp (Int.tdiv pix cells) ax.quotLit
+    then (Int.tdiv pix cells).toNat else ax.init
+
+def termCellW (pix cells : Int) : Nat := termCellWith cellPixelSizeW pix cells
+def termCellH (pix cells : Int) : Nat := termCellWith cellPixelSizeH pix cells
+
+/-- Cell size of a kitty / sixel image after `Resize(w, h)` on a terminal reporting `xpix × ypix` pixels for
+    `cols × rows` cells. -/
+def protoCellSizeTerm (F : FloatOps) (wPix hPix w h : Nat) (xpix cols ypix rows : Int) : Except Panic (Nat × Nat) :=
+  protoCellSize F wPix hPix w h (termCellW xpix cols) (termCellH ypix rows)
+
+/-! ### Signed boxes -/
 
 def evalFitI (fc : Cmp × Conn × Cmp) (columns : Nat) (w : Int) (lines : Nat) (h : Int) : Bool :=
   match fc.2.1 with
